@@ -19,7 +19,7 @@ from mon import core
 from mon import refmodel as rm
 from mon.fnlib import basic as fl
 from mon.fnlib import trans as tr
-from mon.gen_transmodel import gen
+from mon.gen_transmodel import gen, module_state_rebound
 from mon.linmodel import gen_linnet
 
 LEVEL = "exploration"
@@ -258,8 +258,13 @@ def run_case(case: dict) -> dict:
     part = case["part"]
     counters: dict[str, int] = {f"part:{part}": 1}
     if part in ("A", "lib"):
-        g = gen(rng, conditionals=rng.random() < 0.5) if part == "A" else lib_model(rng)
-        viols, c, nt = part_a(case, g, rng)
+        g = gen(rng, conditionals=rng.random() < 0.5, module_state=0.25) if part == "A" else lib_model(rng)
+        if "module_state" in g["features"]:
+            # one conversion was made in this process before the module-level values the rate laws read are re-bound
+            with module_state_rebound(rng, lambda: to_symbolic_model(rm.build(g["spec"]))):
+                viols, c, nt = part_a(case, g, rng)
+        else:
+            viols, c, nt = part_a(case, g, rng)
         sig = core.sha(g["spec"])
         for f in g["features"]:
             c[f"feat:{f}"] = 1
